@@ -605,8 +605,11 @@ class PyExec:
             t = self.truth(cur, v, e)
             vals.append((v, t))
             if i < len(n.values) - 1:
+                g = z3.simplify(t if is_and else z3.Not(t))
+                if z3.is_false(g):
+                    break              # the remaining operands are never evaluated (`x is None or x.attr` with x None)
                 cur = cur.copy()
-                cur.path.append(t if is_and else z3.Not(t))
+                cur.path.append(g)
         # all operands pure in the subset (no assignment expressions): state unchanged
         ts = [t for _, t in vals]
         if all(isinstance(v, PBool) for v, _ in vals):
@@ -903,14 +906,32 @@ class PyExec:
             return self.call_method(st, f, n)
         raise OutOfSubset("call form")
 
-    def args(self, st, n):
+    def args(self, st, n, params=None, none_defaults=False):
+        """positional argument values; keyword arguments are accepted when the callee's parameter names are known (a contract):
+        evaluated in source order (positional, then keywords as written) and placed at their parameters' positions"""
+        vals = [self.ev(st, a) for a in n.args]
         if n.keywords:
-            raise OutOfSubset("keyword arguments")
-        return [self.ev(st, a) for a in n.args]
+            if params is None or any(k.arg is None for k in n.keywords):
+                raise OutOfSubset("keyword arguments")
+            slots = dict(enumerate(vals))
+            for k in n.keywords:
+                if k.arg not in params:
+                    raise StaleContract("keyword argument %s is not a parameter of the contract (%s)" % (k.arg, ", ".join(params)))
+                pos = params.index(k.arg)
+                if pos in slots:
+                    raise OutOfSubset("keyword argument %s given twice" % k.arg)
+                slots[pos] = self.ev(st, k.value)
+            if sorted(slots) != list(range(len(slots))):
+                if not none_defaults:
+                    raise OutOfSubset("keyword arguments leave a gap in the parameter list (defaults are not modelled)")
+                for i in range(max(slots) + 1):
+                    slots.setdefault(i, PNone())       # the contract states that the skipped parameters default to None
+            vals = [slots[i] for i in range(len(slots))]
+        return vals
 
     def call_name(self, st, name, n):
         if name in self.callees:
-            return self.apply_callee(st, self.callees[name], self.args(st, n), n)
+            return self.apply_callee(st, self.callees[name], self.args(st, n, self.callees[name].params, getattr(self.callees[name], "none_defaults", False)), n)
         def _cls_name(x):
             return x.id if isinstance(x, ast.Name) else x.attr if isinstance(x, ast.Attribute) else None
         if name == "isinstance" and len(n.args) == 2 and (_cls_name(n.args[1]) or (
@@ -989,7 +1010,7 @@ class PyExec:
         dotted = dotted_name(f)
         if dotted and dotted in self.callees and dotted.split(".")[0] not in st.vars:
             # module-level function reached through its module (hashlib.sha256, os.path.splitext): by contract
-            return self.apply_callee(st, self.callees[dotted], self.args(st, n), n)
+            return self.apply_callee(st, self.callees[dotted], self.args(st, n, self.callees[dotted].params), n)
         if meth == "join" and isinstance(recv_node, ast.Constant) and isinstance(recv_node.value, str):
             a = self.args(st, n)
             if isinstance(a[0], PRef) and a[0].cls == "list" and self.opt.get("elem_kind", {}).get("list") == "slice":
@@ -1023,7 +1044,7 @@ class PyExec:
         elif isinstance(recv, PRef) and ("%s.%s" % (recv.cls, meth)) in self.callees:
             key = "%s.%s" % (recv.cls, meth)
         if key and key in self.callees:
-            return self.apply_callee(st, self.callees[key], [recv] + self.args(st, n), n)
+            return self.apply_callee(st, self.callees[key], [recv] + self.args(st, n, self.callees[key].params[1:]), n)
         if key and key in self.opt.get("inline", ()):
             return self.inline_call(st, key, [recv] + self.args(st, n), n)
         if key and self.opt.get("pure_query_methods") and meth.startswith(("has_", "is_", "may_", "can_")) and not n.args and not n.keywords:
